@@ -128,6 +128,61 @@ def add_assignments(rng, prog):
     return out
 
 
+def _other_kind(rng, raw, info, longnames):
+    """A value of another kind (int <-> float, text <-> object, text -> number) for an attribute whose representation
+    code is inferred from the value; None if there is none."""
+    t = raw['t']
+    if t in ('list', 'tuple'):
+        vs = [_other_kind(rng, x, info, longnames) for x in raw['v']]
+        if not vs or any(v is None for v in vs):
+            return None
+        return {'t': t, 'v': vs}
+    if t == 'int':
+        return R.r_float(specgen.f_bits(raw['v'] + 0.5)) if abs(raw['v']) < 2 ** 40 else None
+    if t == 'float':
+        return R.r_int(rng.choice([3, -70000, 200]))
+    if info['cls'] == 'EFLROrTextAttribute':
+        if t == 'str':
+            return R.r_ref(rng.choice(longnames)) if longnames else None
+        if t == 'ref':
+            return R.r_str('TEXT-NOW')
+    if t == 'str' and info['cls'] == 'Attribute':
+        return R.r_int(7)
+    if t == 'dt' and info.get('allow_float'):
+        return R.r_float(specgen.f_bits(12.5))
+    return None
+
+
+def rekind_assignments(rng, prog, limit=8):
+    """Assignments that give attributes with an inferred representation code a value of another kind than the one they
+    were created with (the history a cached / stale code would need)."""
+    A = specgen.api()
+    created = []
+    for s in prog:
+        if s['op'] in ('origin', 'add', 'channel', 'frame'):
+            created.append(s)
+    longnames = [i for i, s in enumerate(created) if s.get('type') == 'long_name']
+    out = []
+    for i, s in enumerate(created):
+        tkey = s.get('type') or s['op']
+        A_t = A[tkey]
+        for p, raw in s.get('kw', {}).items():
+            an = A_t['params'].get(p)
+            info = A_t['attrs'].get(an) if an else None
+            if info is None or info['rc0'] is not None or info['int_only']:
+                continue
+            if info['cls'] not in ('NumericAttribute', 'Attribute', 'EFLROrTextAttribute', 'DTimeAttribute') or an in ('dimension', 'element_limit'):
+                continue
+            v = raw.get('value') if raw['t'] in ('setup', 'dict') else raw
+            if v is None:
+                continue
+            w = _other_kind(rng, v, info, longnames)
+            if w is not None:
+                out.append({'op': 'assign', 'obj': i, '_type': tkey, 'attr': an, 'part': 'value', 'raw': w})
+    rng.shuffle(out)
+    return out[:limit]
+
+
 def add_queries(rng, prog):
     out = []
     for s in prog:
@@ -153,7 +208,7 @@ def gen_program(rng, flavor=None, vrl=None):
     if flavor == 'rewrite':
         # assign other kinds of values after the first write, then write the same DLISFile again
         tail = add_assignments(rng, [s for s in prog if s['op'] != 'write'])
-        extra = [s for s in tail if s['op'] == 'assign'][:6]
+        extra = [s for s in tail if s['op'] == 'assign'][:4] + rekind_assignments(rng, [s for s in prog if s['op'] != 'write'])
         prog += extra + [{'op': 'write'}]
     return prog, flavor
 
@@ -392,6 +447,34 @@ def reject_kinds(tkey):
         elif cls == 'IdentAttribute' and A['attrs'][an]['has_converter'] and an in ('domain', 'phase', 'status'):
             out.append({p: R.r_str('NOT-A-MEMBER')})
     return out
+
+
+def gen_origin_sandwich(rng, explicit=None, objects_before=True, second_explicit=None):
+    """A rejected add_origin (rejected after registration: bad CREATION-TIME) as the FIRST origin call of the logical
+    file, objects without an origin reference before / after it, then the accepted (defining) origin, more objects,
+    channel, frame, write."""
+    def obj(tk, nm):
+        return {'op': 'add', 'lf': 0, 'type': tk, 'name': R.r_str(nm), 'set_name': None, 'origin': None, 'kw': {}}
+    prog = [{'op': 'newfile', 'ident': 'MAIN-STORAGE-UNIT', 'seq': 1, 'vrl': 8192},
+            {'op': 'lf', 'fh_id': R.r_str('H'), 'fh_seq': R.r_int(1)}]
+    n = 0
+    if objects_before:
+        prog.append(obj('zone', 'Z0')); n += 1
+    prog.append({'op': 'origin', 'lf': 0, 'name': R.r_str('REJECTED-ORIGIN'), 'set_name': None,
+                 'origin': None if explicit is None else R.r_int(explicit), '_fh_id': 'H',
+                 'kw': {'file_set_number': R.r_int(2), 'creation_time': R.r_str('not a date')}}); n += 1
+    prog.append(obj('zone', 'Z1')); n += 1
+    prog.append(obj(rng.choice(['axis', 'tool', 'comment']), 'X1')); n += 1
+    prog.append({'op': 'origin', 'lf': 0, 'name': R.r_str('O'), 'set_name': None,
+                 'origin': None if second_explicit is None else R.r_int(second_explicit), '_fh_id': 'H',
+                 'kw': {'file_set_number': R.r_int(1), 'creation_time': R.r_str('2020/01/01 00:00:00')}}); n += 1
+    prog.append(obj('zone', 'Z2')); n += 1
+    prog.append({'op': 'channel', 'lf': 0, 'name': R.r_str('CH'), 'set_name': None, 'origin': None, 'kw': {},
+                 'data': {'dtype': 'float64', 'rows': 3, 'width': None, 'seed': 9}})
+    ch = n; n += 1
+    prog.append({'op': 'frame', 'lf': 0, 'name': R.r_str('F'), 'set_name': None, 'origin': None, 'kw': {}, 'channels': R.r_list([R.r_ref(ch)])})
+    prog.append({'op': 'write'})
+    return prog
 
 
 def gen_sandwich(rng, tkey=None, inner=None):
